@@ -121,7 +121,15 @@ func VP_C09_RestoreStaged() {
 	for _, h := range head {
 		if vpUnder(h.path, arg) {
 			known = true
-			want = append(want, h)
+			// a staged entry that cannot coexist with the re-created one (the same name as a file and as a directory)
+			// is replaced by it: the staging area never tracks a name in both kinds (see DESIGN §11.4, fix 32)
+			var w2 []vpPair
+			for _, e := range want {
+				if !vpHasDirPrefix(h.path, e.path) && !vpHasDirPrefix(e.path, h.path) {
+					w2 = append(w2, e)
+				}
+			}
+			want = append(w2, h)
 		}
 	}
 	if known {
@@ -134,7 +142,7 @@ func VP_C09_RestoreStaged() {
 					same = false
 				}
 			}
-			zzvp.Assert(same, "each named entry equals HEAD's entry (removed if HEAD has none, re-created if unstaged); no other entry changes")
+			zzvp.Assert(same, "each named entry equals HEAD's entry (removed if HEAD has none, re-created if unstaged); no other entry changes, except one that cannot coexist with a re-created entry")
 		}
 	} else {
 		zzvp.Assert(r.Exit == 1 && vpSamePairList(idxBefore, idxAfter), "a path known to neither is refused and nothing changes")
